@@ -16,7 +16,9 @@ BOM = '\ufeff'
 ALPHA = {
     'parse': ['a', ' ', '\n', '(', ')', ':', 'if', '"', "f'", '{', '\\', '#'],
     'pos': ['a', ' ', '\n', '\r', '\f', "'''", '\\', '#', BOM, '\x85', '(', 'if'],
-    'tok': ['a', ' ', '\n', '\r', '\f', '#', '\\', BOM, "f'", '{', '"', '\xa0'],
+    'tok': ['a', ' ', '\n', '\r', '\f', '#', '\\', BOM, 'f"', '{', '"', '\xa0'],
+    'fstr': ['f"', '{', '}', '"', 'a', ':', '!r', '\f', ' ', '\n', "'", '\\'],
+    'blk': ['if a:\n', ' a', ' ', '\n', '#c', 'a', '\\\n', '\t', '(', ')', 'def f():\n', '  b'],
     'stmt': ['a', ' ', '\n', ':', 'if', 'def', '(', ')', '=', ',', '*', '1'],
     'err': ['a', ' ', '\n', ':', 'if', '(', ')', "f'", '{', '}', "'", '='],
     'pep8': ['a', ' ', '\n', ':', 'if', '(', ')', '#', '\\', '=', ',', BOM],
@@ -103,6 +105,11 @@ def tpl_program(rng):
     code = nl.join(lines)
     if rng.random() < 0.7:
         code += nl
+    else:
+        # end of file without a final line break: decorate it (trailing blanks, comment, continuation)
+        r = rng.random()
+        if r < 0.5:
+            code += rng.choice([' ', '  ', '\t', '  # c', '#', ' \\', '\f', ' \\\n', ';'])
     if rng.random() < 0.05:
         code = BOM + code
     # mutations
